@@ -28,6 +28,12 @@ class ACM:
     def __repr__(s): return f"ACM({s.n})"
 
 
+class FalsyCM(CM):
+    """a manager that answers False to bool() (container-like, empty): still THE registered manager"""
+    def __len__(s): return 0
+    def __repr__(s): return f"FalsyCM({s.n})"
+
+
 def fn(*a, **k): pass
 async def afn(*a, **k): pass
 
@@ -67,6 +73,7 @@ def forms():
     F["push_fn"] = (lambda st, o: st.push(o), lambda: fn, False, "push", lambda c, o: c.obj is o)
     F["push_method"] = (lambda st, o: st.push(o.other), lambda: CM(3), False, "push", lambda c, o: c.obj is o)
     F["callback"] = (lambda st, o: st.callback(o, 1, k=2), lambda: fn, False, "callback", lambda c, o: getattr(c.obj, "__wrapped__", None) is o)
+    F["enter_falsy_cm"] = (lambda st, o: st.enter_context(o), lambda: FalsyCM(4), False, "enter_context", lambda c, o: c.obj is o)
     F["enter_gcm"] = (lambda st, o: st.enter_context(o), lambda: gcm(), False, "enter_context", lambda c, o: c.obj is o)
     F["enter_delegating"] = (lambda st, o: st.enter_context(o), lambda: delegating(), False, "enter_context", lambda c, o: c.obj is o)
     return F
@@ -213,4 +220,40 @@ leg.case("wrapped-push", True)
 ch = stackscope.extract(it).frames[0].contexts[0].children[0]
 if "stack.push(" not in ch.description or ch.obj is not wrapped_release:
     leg.violation("wrapped-push", f"push(functools.wraps-decorated function) described as {ch.description!r}")
+# a generator-based manager that DELEGATES with `yield from`: it unfolds into all its frames and each of them carries its own
+# contexts (an ExitStack with two registrations and a plain manager inside the sub-generator); both inspection modes
+from stackscope.lowlevel import set_trickery_enabled
+def deleg_helper():
+    with contextlib.ExitStack() as es:
+        es.enter_context(CM(1))
+        es.callback(fn, 1)
+        with CM(2):
+            yield
+@contextlib.contextmanager
+def deleg_direct():
+    yield from deleg_helper()
+def deleg_user():
+    with deleg_direct():
+        yield
+for mode in (None, False):
+    set_trickery_enabled(mode)
+    try:
+        it = deleg_user(); next(it)
+        key = ("delegating-gcm", "trickery" if mode is None else "referents")
+        leg.case(key, True)
+        st_ = stackscope.extract(it)
+        ctx = st_.frames[0].contexts[0]
+        inner = ctx.inner_stack
+        names = [f.funcname for f in inner.frames] if inner is not None else None
+        if names != ["deleg_direct", "deleg_helper"] or st_.error is not None or inner.error is not None:
+            leg.violation(key, f"inner stack of a delegating manager: {names}, error={st_.error!r}")
+        else:
+            hc = inner.frames[1].contexts
+            objs = [type(c.obj).__name__ for c in hc]
+            kids = [c.description for c in hc[0].children] if hc else None
+            if objs != ["ExitStack", "CM"] or not kids or len(kids) != 2:
+                leg.violation(key, f"contexts of the delegated sub-generator frame: {objs}, exit-stack entries {kids}")
+        it.close()
+    finally:
+        set_trickery_enabled(None)
 leg.finish(exhaustive=THOROUGH)
